@@ -248,7 +248,7 @@ def sample(rng, depth):
         w = Walker()
         s_term, t_term = w.block(body, node.args[nloc:], addr)
     except ExportError as ex:
-        return {"src": src, "error": str(ex)}
+        return dict(out, error=str(ex))
     out["coq_s"] = s_term
     out["coq_t"] = f"(LSSeq {t_term})"
     # the Venom front end's blocks for the same source (for the bridge)
@@ -324,7 +324,19 @@ def part_lstmt(ctx, deps=None):
         if "error" in s:
             stats["export_errors"] += 1
             stats.setdefault("first_export_error", s["error"][:200])
-            if stats["export_errors"] <= 2:
+            ff = None
+            if stats["export_errors"] <= 8 and stats["evm_mismatches"] < 2:
+                # the IR does not have the expected shape: is the program also miscompiled?
+                try:
+                    ff, n = differential(s, ctx.rng("lstmt-err:" + s["src"]), tries=8)
+                    stats["evm_runs"] += n
+                except Exception:  # noqa
+                    ff = None
+                if ff is not None:
+                    stats["evm_mismatches"] += 1
+                    ctx.violation("failing-input", "the legacy pipeline miscompiles a function body (statements over int/bool locals)",
+                                  dict(ff, export_error=s["error"][:200]), key="lstmt:" + str(hash(s["src"]) % 10 ** 8))
+            if ff is None and stats["export_errors"] <= 2:
                 ctx.violation("correspondence-broken", "the legacy IR of a function body of the fragment could not be exported: " + s["error"],
                               {"source": s["src"]})
             continue
@@ -334,7 +346,7 @@ def part_lstmt(ctx, deps=None):
     stats["stmt_kinds"] = kinds
     if stats["rejected_by_compiler"] > 3 * max(1, len(samples)):
         ctx.violation("correspondence-broken", "the compiler rejects most generated function bodies", dict(stats))
-    found = 0
+    found = stats["evm_mismatches"]
     for s in samples:
         try:
             ff, n = differential(s, ctx.rng("lstmt-evm:" + s["src"]), tries=4 if ctx.tier == "quick" else 6)
